@@ -3,6 +3,7 @@ C02 for the cert-block-v2.1 / manifest family: the signature covers exactly the 
 is the hash of the same bytes, and the independent ROM model (Spec/MbiRom.lean) accepts what the model exports - given
 what its walk over the (opaque) certificate block answers.
 -/
+import SpsdkVerif.Proofs.MbiRomFlags
 import SpsdkVerif.Proofs.MbiSignedV21
 import SpsdkVerif.Proofs.MbiRomDefs
 
@@ -420,7 +421,7 @@ theorem rom_accepts_signedV21 (h : Hyp co env c cfg signer) (hf : c.family = som
     rw [hkc, hL]; cases k <;> simp [manifestHeaderSize, Spec.MbiRom.manifestHeaderSize, romV21CrcLen, romV21IsCrc] <;> omega
   have htzt : Spec.MbiRom.rd32 e Spec.MbiRom.offFlags >>> Spec.MbiRom.shiftTzType &&& Spec.MbiRom.maskTzType
       = cfg.tz.tag := by
-    rw [← g4, ← R.w36]; rfl
+    rw [← g4, ← R.w36]; exact rom_tz _
   have hsigned := romV21_signed_abs co renv e (appData cfg).length ((appData cfg).length + cfg.cert.length) signPub
     (obs e (appData cfg).length) (manifestLen k cfg) (v21ManFlags k cfg) (v21DigLen k cfg)
     R.w40
@@ -461,11 +462,11 @@ theorem rom_accepts_signedV21 (h : Hyp co env c cfg signer) (hf : c.family = som
           else rd32 e ivtImageLengthOffset == e.length) = true
         rw [this]; cases c.zeroTotalLength <;> simp)
     (by have : flagsOf c cfg >>> Spec.MbiRom.shiftTzType &&& Spec.MbiRom.maskTzType = cfg.tz.tag := by
-          rw [← g4]; rfl
+          rw [← g4]; exact rom_tz _
         rw [this]
         cases cfg.tz <;> simp [TzCfg.tag, tzEnabled, tzCustom, tzDisabled, Spec.MbiRom.tzEnabled, Spec.MbiRom.tzCustom,
           Spec.MbiRom.tzDisabled])
-    (by rw [← romV21_imageType F G]; rfl) hty hck
+    (by rw [← romV21_imageType F G]; exact rom_type _) hty hck
   refine ⟨e, v21Raw c cfg k, _, ?_, ?_, hcheck.trans hsigned, ?_⟩
   · rw [← he]; exact signedV21_export F G k hk
   · rw [← he]; exact romV21_image_eq G hk
